@@ -91,6 +91,7 @@ def _cmp_constraint(labels):
         "sign": st.sampled_from([1, -1]),
         "log_trick": st.booleans(),
         "delta": st.sampled_from([0.5, 1, 5]),
+        "bounds": gen.pick((None, 3), ("exact", 1), ("loose", 1)),
     })
 
 
@@ -182,6 +183,7 @@ def pipeline_specs():
                 "weak": gen.pick((None, 2), (0.125, 1), (0.5, 1)),
                 "early_export": gen.pick((False, 2), (True, 1)),
                 "mag": gen.pick((0, 5), (-30, 1), (30, 1)),
+                "remap_first": gen.pick((False, 3), (True, 1)),
                 # one further integer constraint with huge coefficients (big-M form), recorded with lam = 0: it restricts
                 # solve_bruteforce (which filters by is_solution_valid) but adds no penalty, so the forms are not judged
                 "bigM": gen.pick((None, 7), ([0, 1], 1), ([1, 0], 1)),
@@ -238,6 +240,12 @@ def _plan_constraint(c, labels, wbits, spin):
         kw = {"suppress_warnings": True}
         if rel != "eq":
             kw["log_trick"] = c["log_trick"]
+        bm = c.get("bounds")
+        if bm:
+            # explicit, valid bounds: the exact range of P over all assignments, or a looser half-integer enclosure
+            vals = [ref.ref_value(P, ref.assignment(labels, r, spin)) for r in range(1 << len(labels))]
+            lo, hi = min(vals), max(vals)
+            kw["bounds"] = (lo, hi) if bm == "exact" else (lo - 1.5, hi + 0.5)
         Pf = dict(P)
 
         def pred(a, Pf=Pf, rel=rel):
@@ -368,6 +376,13 @@ def _run(spec, rec, qv):
     fscale = sum(abs(v) for v in f.values()) + 1.0 * sc
 
     H = lib(gen.build, qv, kind, spec["objective"], what="build")
+    if spec.get("remap_first") and H.num_binary_variables >= 2:
+        # the user picks the enumeration (documented set_mapping) before adding the constraints: ancillas and further
+        # variables that enter later must still get fresh integers
+        mp0 = H.mapping
+        n0 = len(mp0)
+        lib(H.set_mapping, {l: n0 - 1 - i for l, i in mp0.items()}, what="set_mapping")
+        classes.add("set_mapping_first")
     preds, descr, anc_flags, clabels = [], [], [], set()
     for ci, c in enumerate(spec["constraints"]):
         if ci and spec.get("early_export") and H.num_binary_variables <= 14:
